@@ -98,3 +98,30 @@ theorem ofFlat_outside {R : Type} [Zero R] (ds : List Nat) (a : Array R) (idx : 
   simp [this]
 
 end PW
+
+namespace PW
+/-- **`kron` is the tensor product of the block functions.** Reading the Kronecker product of two
+stored blocks at a concatenated index gives the product of the blocks' entries: combining blocks
+multiplies amplitudes and changes nothing else (all shapes, all block sizes). -/
+theorem ofFlat_kronFlat {R : Type} [MulZeroClass R] (da db : List Nat) (a b : Array R)
+    (ha : a.size = da.prod) (hb : b.size = db.prod) (ia ib : List Nat)
+    (hia : InRange da ia) (hib : InRange db ib) :
+    ofFlat (da ++ db) (kronFlat a b) (ia ++ ib) = ofFlat da a ia * ofFlat db b ib := by
+  have hab : InRange (da ++ db) (ia ++ ib) := hia.append hib
+  unfold ofFlat
+  rw [(inRange_iff _ _).mpr hab, (inRange_iff _ _).mpr hia, (inRange_iff _ _).mpr hib]
+  simp only [if_true]
+  rw [encode_append da db ia ib hia.length]
+  have hla := encode_lt da ia hia
+  have hlb := encode_lt db ib hib
+  have hpos : 0 < db.prod := by omega
+  have hlt : encode da ia * db.prod + encode db ib < a.size * b.size := by
+    rw [ha, hb]
+    calc encode da ia * db.prod + encode db ib < encode da ia * db.prod + db.prod := by omega
+      _ = (encode da ia + 1) * db.prod := by ring
+      _ ≤ da.prod * db.prod := Nat.mul_le_mul_right _ hla
+  unfold kronFlat
+  simp only [Array.getD_eq_getD_getElem?, Array.getElem?_ofFn, hlt, dif_pos, Option.getD_some]
+  rw [hb, Nat.add_comm, Nat.add_mul_div_right _ _ hpos, Nat.div_eq_of_lt hlb, Nat.zero_add,
+    Nat.add_mul_mod_self_right, Nat.mod_eq_of_lt hlb]
+end PW
